@@ -124,7 +124,7 @@ def odd_absent_labels(desc):
     tuple, a one-element tuple, a timedelta, a frozenset, a float between two integers."""
     import datetime
     labs = labels(desc)
-    cands = [(2000, 1), ('zz',), datetime.timedelta(days=1), frozenset([1]), 3.25]
+    cands = [(2000, 1), ('zz',), datetime.timedelta(days=1), frozenset([1]), 3.25, None]
     return [c for c in cands if pos(labs, c) is None]
 
 
